@@ -329,6 +329,64 @@ def g_sd(r, name):
     return L
 
 
+def attr_count(r, nt, legal=None):
+    """a count around the limits of an attribute of number type nt (one Vdata field: <= 65535 values and bytes)"""
+    lim = 65535 // SIZES[nt]
+    good = [1, 2, 100, lim - 1, lim, lim]
+    bad = [lim + 1, lim + 1, 65535 if SIZES[nt] > 1 else 65536, 65536, 65537, 70000, min(IMAX, (1 << 32) // SIZES[nt]),
+           min(IMAX, (1 << 32) // SIZES[nt] + 3), (1 << 30), IMAX, 0, -1]
+    if legal is True:
+        return r.choice(good)
+    if legal is False:
+        return r.choice(bad)
+    return r.choice(good + bad)
+
+
+def g_attr(r, name):
+    """SD attributes of the file, of data sets and of dimensions: new names at the limits, and -- the class the first
+    version of this check left out -- an EXISTING name set again with a value beyond / at / within the limits"""
+    L = ["history " + name, "sdstart 0", "sdcreate 0 8 2", "sdcreate 0 9 1"]
+    objs = [-1, 0, 1, 1000, 1001]
+    used = []
+    for _ in range(r.choice([6, 8, 10])):
+        obj = r.choice(objs)
+        nt = r.choice(list(SIZES))
+        if used and r.random() < 0.6:
+            obj, a, nt0 = r.choice(used)            # replace an existing attribute (any number type, any count)
+            nt = nt0 if r.random() < 0.6 else nt
+            L.append("sdattr 0 %d %d %d %d" % (obj, a, nt, attr_count(r, nt, legal=r.choice([False, False, True]))))
+            L.append("sdattrinfo 0 %d %d" % (obj, a))
+        else:
+            a = len(L)
+            c = attr_count(r, nt)
+            L.append("sdattr 0 %d %d %d %d" % (obj, a, nt, c))
+            L.append("sdattrinfo 0 %d %d" % (obj, a))
+            if 1 <= c <= 65535 // SIZES[nt]:
+                used.append((obj, a, nt))
+    L += ["sdinfo 0", "sdend 0", "sdopen 0", "sdinfo 0", "sdname 0 0", "sdname 0 1"]
+    for obj, a, nt in used:
+        L.append("sdattrinfo 0 %d %d" % (obj, a))
+    if used:
+        obj, a, nt = r.choice(used)                  # and once more after the reopen
+        L += ["sdattr 0 %d %d %d %d" % (obj, a, nt, attr_count(r, nt, legal=False)), "sdattrinfo 0 %d %d" % (obj, a),
+              "sdattr 0 %d %d %d %d" % (obj, a, nt, attr_count(r, nt, legal=True)), "sdattrinfo 0 %d %d" % (obj, a)]
+    L += ["sdcreate 0 5 1", "sdinfo 0", "sdend 0"]
+    return L
+
+
+def g_attr2(r, name):
+    """GR / Vgroup / Vdata attributes: a new name, then the same name again, on both sides of the limits"""
+    L = ["history " + name, "hopen 16", "vgnew 0", "vsnew 0"]
+    for _ in range(r.choice([4, 6, 8])):
+        nt = r.choice(list(SIZES))
+        kind = r.choice(["grattr2", "grattr2", "vgattr2 0", "vsattr2 0"])
+        c1 = attr_count(r, nt)
+        c2 = r.choice([c1, attr_count(r, nt), attr_count(r, nt, legal=False)])
+        L.append("%s %d %d %d" % (kind, nt, c1, c2))
+    L += ["vgadd 0 1000 1 2", "vgdetach 0", "put 150 1 5", "reopen", "get 150 1", "dds", "vgattach 0 0 r", "vgn 0"]
+    return L
+
+
 def g_fn(r, name):
     L = ["history " + name]
     for _ in range(40):
@@ -352,7 +410,7 @@ def g_fn(r, name):
 
 
 GENS = [("eof", g_eof, 10), ("append", g_append, 6), ("seek", g_seek, 4), ("chunk", g_chunk, 1), ("hl", g_hl, 4), ("refs", g_refs, 2), ("vg", g_vg, 4),
-        ("vs", g_vs, 9), ("sd", g_sd, 6), ("fn", g_fn, 2)]
+        ("vs", g_vs, 9), ("sd", g_sd, 6), ("attr", g_attr, 4), ("attr2", g_attr2, 3), ("fn", g_fn, 2)]
 
 
 # ------------------------------------------------------------------------------------------------- running
